@@ -47,9 +47,15 @@ def main() -> int:
 
     proof = info.get("props", {})
     problems: list[str] = []
-    if not info.get("translate_ok", True):
+    # what this property rests on: the model (everything extracted into the driver) and whatever its property file
+    # depends on. A generated tie file or proof file that another property needs and this one does not is not
+    # this property's problem (seen with seeded change C07-1: a changed gate definition made all 20 checks alarm).
+    closure = set(info.get("closure") or [])
+    uses_gen = any(f.startswith("Gen/") for f in closure)
+    if not info.get("translate_ok", True) and (uses_gen or not closure):
         problems.append("translator: " + info.get("translate_log", "")[-400:])
-    model_failed = [f for f in info.get("failed_files", []) if f.startswith(("Model/", "Gen/", "Extract/"))]
+    model_failed = [f for f in info.get("failed_files", [])
+                    if f.startswith(("Model/", "Extract/")) or (f.startswith("Gen/") and (f in closure or not closure))]
     if model_failed:
         problems.append("model files not built: " + ", ".join(model_failed))
     if not info.get("driver_ok", True):
